@@ -333,6 +333,8 @@ fn define_trait_impl(
             None => tast::Ty::TUnit,
         };
 
+        report_undetermined_type_params(diagnostics, &m.generics, &params, &ret, &method_name_str);
+
         let impl_method_ty = tast::Ty::TFunc {
             params: params.clone(),
             ret_ty: Box::new(ret.clone()),
@@ -537,9 +539,11 @@ fn define_inherent_impl(
         };
 
         if diagnostics.len() == reported_before {
+            // The impl's own type parameters are fixed by a call in the same way: only
+            // through the receiver, the other parameters or the result.
             report_undetermined_type_params(
                 diagnostics,
-                &m.generics,
+                &all_generics,
                 &params,
                 &ret,
                 &method_name_str,
